@@ -13,6 +13,7 @@ CONSTANTS
   Signers = {"relayer", "outsider"}
   Funds = 1000
   Fees = {0, 1}
+  WithRotate = TRUE
   SendFrom <- AllSendFrom
   Depth = 25
   UsefulPct = 6
